@@ -8,6 +8,13 @@ From Coq Require Strings.String Strings.Ascii.
 From EsVerif.Common Require Import Base.
 From EsVerif.C12 Require Import Model Spec Proofs Gen.
 
+(* case analysis on every boolean test, then linear arithmetic: robust against equivalent
+   rewrites of the source's comparisons (a > b for b < a, >= for >, reordered tests) *)
+Ltac cases_lia :=
+  repeat match goal with
+         | |- context [if ?b then _ else _] => destruct b eqn:?
+         end; cbn [negb andb orb] in *; try reflexivity; try lia.
+
 (* ---- Matcher::match *)
 Lemma tie_keep dis i rad v :
   leaf_pairs dis i rad v = flat_map (fun j => if src_keep (dis i j) rad then [(j, dis i j)] else []) v.
@@ -16,8 +23,7 @@ Proof. reflexivity. Qed.
 Lemma tie_nkeep k n :
   Z.of_nat (nkeep k n) = if src_emit_guard (Z.of_nat n) then src_truncate (Z.of_nat n) k else 0.
 Proof.
-  unfold nkeep, src_emit_guard, src_truncate.
-  destruct (0 <? Z.of_nat n) eqn:G; destruct (0 <? k) eqn:A; destruct (k <? Z.of_nat n) eqn:B; cbn [andb]; lia.
+  unfold nkeep, src_emit_guard, src_truncate. cases_lia.
 Qed.
 
 Lemma tie_match_one dis cover sorter h k i rad :
@@ -53,9 +59,9 @@ Lemma tie_rad rads i :
 Proof.
   unfold src_rad_each, src_rad_once, src_rad_each_index, src_rad_once_index. cbv zeta.
   destruct rads as [|r [|r' t]]; cbn [length rad_of].
-  - destruct i; reflexivity.
-  - reflexivity.
-  - replace (1 <? Z.of_nat (S (S (length t)))) with true by lia. rewrite Nat2Z.id. reflexivity.
+  - destruct i; cases_lia.
+  - cases_lia.
+  - rewrite ?Nat2Z.id. cases_lia.
 Qed.
 
 (* every for loop runs over 0 <= v < bound (the model's [seq 0 n], whole-list traversals and [firstn]) *)
@@ -67,33 +73,20 @@ Proof. split; [|reflexivity]. repeat constructor. Qed.
 Lemma tie_matcher_init tri n2 n2dec :
   matcher_init tri n2 n2dec
   = if src_matcher_init_rejects (Z.of_nat n2) (Z.of_nat n2dec) then Err EValue else Ok (matcher_new tri n2).
-Proof.
-  unfold matcher_init, src_matcher_init_rejects.
-  destruct (n2 =? n2dec)%nat eqn:A; destruct (Z.of_nat n2 =? Z.of_nat n2dec) eqn:B; try reflexivity; lia.
-Qed.
+Proof. unfold matcher_init, src_matcher_init_rejects. cases_lia. Qed.
 
 Lemma tie_matcher_match dis cover sorter m n1 n1dec rads k :
   matcher_match dis cover sorter m n1 n1dec rads k
   = if src_matcher_match_rejects (Z.of_nat n1) (Z.of_nat n1dec) (Z.of_nat (length rads)) then Err EValue
     else Ok (match_loop dis cover sorter (m_hmap m) k rads n1).
-Proof.
-  unfold matcher_match, src_matcher_match_rejects.
-  destruct (n1 =? n1dec)%nat eqn:A; destruct (Z.of_nat n1 =? Z.of_nat n1dec) eqn:A'; try lia; cbn [negb orb]; [|reflexivity].
-  destruct (length rads =? 1)%nat eqn:B; destruct (Z.of_nat (length rads) =? 1) eqn:B'; try lia; cbn [negb andb]; [reflexivity|].
-  destruct (length rads =? n1)%nat eqn:C; destruct (Z.of_nat (length rads) =? Z.of_nat n1) eqn:C'; try lia; reflexivity.
-Qed.
+Proof. unfold matcher_match, src_matcher_match_rejects. cases_lia. Qed.
 
 Lemma tie_htm_match dis cover sorter tri n2 n2dec n1 n1dec rads k :
   htm_match dis cover sorter tri n2 n2dec n1 n1dec rads k
   = if src_htm_match_rejects (Z.of_nat n1) (Z.of_nat n1dec) (Z.of_nat n2) (Z.of_nat n2dec) (Z.of_nat (length rads))
     then Err EValue
     else do m <- matcher_init tri n2 n2dec; matcher_match dis cover sorter m n1 n1dec rads k.
-Proof.
-  unfold htm_match, src_htm_match_rejects. rewrite Z.eqb_refl. cbn [negb orb].
-  destruct (n1 =? n1dec)%nat eqn:A; destruct (Z.of_nat n1 =? Z.of_nat n1dec) eqn:A'; try lia; cbn [negb orb]; [|reflexivity].
-  destruct (length rads =? 1)%nat eqn:B; destruct (Z.of_nat (length rads) =? 1) eqn:B'; try lia; cbn [negb andb]; [reflexivity|].
-  destruct (length rads =? n1)%nat eqn:C; destruct (Z.of_nat (length rads) =? Z.of_nat n1) eqn:C'; try lia; reflexivity.
-Qed.
+Proof. unfold htm_match, src_htm_match_rejects. cases_lia. Qed.
 
 (* ---- the pair file: one row "i1 i2 d12" per pair, read back with the matching dtype *)
 Import Coq.Strings.String.
